@@ -52,6 +52,11 @@ func (j *jobList) addFlow(sc FlowScenario) {
 	j.jobs = append(j.jobs, job{fam: "flow", sc: &s, run: func() any { return execFlowScenario(&s) }})
 }
 
+func (j *jobList) addRFlow(sc FlowScenario) {
+	s := sc
+	j.jobs = append(j.jobs, job{fam: "rflow", sc: &s, run: func() any { return execFlowScenario(&s) }})
+}
+
 func runJobs(jobs []job, parallel int, w *bufio.Writer) {
 	out := make([][]byte, len(jobs))
 	var wg sync.WaitGroup
@@ -147,6 +152,14 @@ func replayLine(l line, jl *jobList) bool {
 			os.Exit(2)
 		}
 		jl.addFlow(sc)
+		return true
+	case "rflow":
+		var sc FlowScenario
+		if err := json.Unmarshal(l.Sc, &sc); err != nil {
+			fmt.Fprintln(os.Stderr, "bad scenario:", err)
+			os.Exit(2)
+		}
+		jl.addRFlow(sc)
 		return true
 	case "bind":
 		var sc BindScenario
@@ -261,6 +274,8 @@ func generate(prop, tier string, seed uint64, jl *jobList) int {
 	case "gbatch":
 		genGBatch(r, thorough, shardIdx, shardCnt, jl)
 		return 1
+	case "rflow":
+		genRetriedFlows(r, thorough, jl.addRFlow)
 	case "C17":
 		genC17(r, thorough, jl.addFlow)
 	case "C18":
